@@ -463,7 +463,19 @@ def rule_s(F):
     return out
 
 
+def _c03_rule_b(F):
+    from rules import c03 as _c03m
+    return _c03m.rule_b(F)
+
+
+def _c03_rule_d(F):
+    from rules import c03 as _c03m
+    return _c03m.rule_d(F)
+
+
 RULES = [
+    Rule("C04.X", shared(_c03_rule_b, "C03.B", "C04.X"), 3, "no program runs without consuming one budget: the counter is the Vm's, shared by re-entrant loops (shared with C03.B)"),
+    Rule("C04.Y", shared(_c03_rule_d, "C03.D", "C04.Y"), 3, "every dispatch passes the budget test and decrement (shared with C03.D)"),
     Rule("C04.A", rule_a, 4, "script arithmetic cannot panic"),
     Rule("C04.B", rule_b, 1, "budget cannot underflow (shared with C03.Z)"),
     Rule("C04.G", rule_g, 3, "insertion paths keep a free slot (C12.G/C13.G): probes terminate"),
